@@ -175,6 +175,10 @@ def main():
             saved = freeze(req.get('today'))
             try:
                 for s, mod in zip(req['steps'], mods):
+                    if any(results[k][0] != 'ret' for k in s.get('requires', ())):
+                        results.append(('skipped', None))
+                        out.append({'kind': 'skipped'})
+                        continue
                     try:
                         args = dec(s.get('args', []), results)
                         kwargs = dec(s.get('kwargs', {}), results)
